@@ -661,8 +661,8 @@ def knot_removal(degree, knotvector, ctrlpts, u, **kwargs):
 
     # Loop for Eqs 5.28 & 5.29
     for t in range(0, num):
-        temp[0] = ctrlpts_new[first - 1]
-        temp[last - first + 2] = ctrlpts_new[last + 1]
+        temp[0] = list(ctrlpts_new[first - 1])
+        temp[last - first + 2] = list(ctrlpts_new[last + 1])
         i = first
         j = last
         ii = 1
@@ -711,8 +711,8 @@ def knot_removal(degree, knotvector, ctrlpts, u, **kwargs):
             i = first
             j = last
             while j - i > t:
-                ctrlpts_new[i] = temp[i - first + 1]
-                ctrlpts_new[j] = temp[j - first + 1]
+                ctrlpts_new[i] = list(temp[i - first + 1])
+                ctrlpts_new[j] = list(temp[j - first + 1])
                 i += 1
                 j -= 1
 
